@@ -258,6 +258,24 @@ Definition c04_ok (c : case) : bool :=
   && Nat.leb (length (filter (fun evs => match started evs with [] => false | _ => true end) (all_procs c)))
              (length (i_summaries c)).
 
+(* "whose layers can be set up", read off the run itself: without -x, a layer group none of whose tests started must be accounted
+   for by a setUp that raised while that group's stack was being set up — some layer of its stack has a raising setUp attempt, and
+   there are at least as many raising attempts as there are such groups (every group makes its own attempt; a failure met for
+   one group does not excuse the next).  Evaluated on the implementation's observation only (not proved of the model). *)
+Definition raising_setups (c : case) : list nat :=
+  flat_map (fun evs => flat_map (fun e => match e with OSetUp l HRaise => [l] | _ => [] end) evs) (all_procs c).
+Definition group_not_run (c : case) (l : nat) : bool :=
+  let st := flat_map started (all_procs c) in
+  let idx := seq 0 (length (tests (w c))) in
+  let mine t := match behaviour c t with Some b => Nat.eqb (t_layer b) l && negb (t_deco b) | None => false end in
+  existsb mine idx && negb (existsb (fun t => mine t && mem t st) idx).
+Definition c04_charged (c : case) : bool :=
+  o_x (o c) || i_injected c ||
+  let ls := nodup Nat.eq_dec (map t_layer (tests (w c))) in
+  let nr := filter (group_not_run c) ls in
+  forallb (fun l => existsb (fun x => mem x (stack (w c) l)) (raising_setups c)) nr
+  && Nat.leb (length nr) (length (raising_setups c)).
+
 (* ------------------------------------------------------------------ the checks *)
 (* with an injected subprocess fault the run model does not apply (it has no dying children): only the predicate is evaluated *)
 Definition base_code (c : case) : nat := bit (negb (i_injected c) && negb (agree c)) 1 + bit (negb (wf_case c)) 4.
@@ -282,4 +300,4 @@ Definition check_C12 (c : case) : nat :=
 Definition check_C02 (c : case) : nat := base_code c + bit (negb (c02_ok c (i_injected c))) 2.
 Definition check_C02_injected (c : case) : nat := bit (negb (c02_ok c true)) 2.
 Definition check_C03 (c : case) : nat := base_code c + bit (negb (c03_ok c)) 2.
-Definition check_C04 (c : case) : nat := base_code c + bit (negb (c04_ok c)) 2.
+Definition check_C04 (c : case) : nat := base_code c + bit (negb (c04_ok c && c04_charged c)) 2.
